@@ -5,11 +5,11 @@ D="$(cd "$1" && pwd)"; NAME=$(basename "$D"); WT=/tmp/vsuite-$NAME-$$
 git -C /repo worktree add -q "$WT" HEAD || exit 2
 trap 'git -C /repo worktree remove --force "$WT" >/dev/null 2>&1' EXIT
 git -C "$WT" apply "$D/patch.diff" || { echo "SUITE $NAME applies=FAIL"; exit 1; }
-out=$(cd "$WT" && go test -p 4 -vet=off -count=1 -timeout 40m ./... 2>&1)
+out=$(cd "$WT" && go test -trimpath -p 4 -vet=off -count=1 -timeout 40m ./... 2>&1)
 fails=$(echo "$out" | grep -E "^(FAIL|panic:)" | grep -v "^FAIL$" | awk '{print $2}' | sort -u | tr '\n' ' ')
 if [ -n "$fails" ]; then
   # re-run failing packages alone (timing tests flake under load)
   still=""
-  for p in $fails; do case "$p" in src.elv.sh*) (cd "$WT" && go test -vet=off -count=1 "${p/src.elv.sh/.}" >/dev/null 2>&1) || still="$still $p";; esac; done
+  for p in $fails; do case "$p" in src.elv.sh*) (cd "$WT" && go test -trimpath -vet=off -count=1 "${p/src.elv.sh/.}" >/dev/null 2>&1) || still="$still $p";; esac; done
   if [ -n "$still" ]; then echo "SUITE $NAME FAIL:$still"; else echo "SUITE $NAME pass (after solo re-run of: $fails)"; fi
 else echo "SUITE $NAME pass"; fi
